@@ -3,7 +3,7 @@ package main
 func init() {
 	props["C02"] = &Prop{
 		ID: "C02", PkgDir: "interp", PkgPath: interpPath, PkgName: "interp",
-		Harness:        []string{"interp_common.go", "big_common.go", "models_validate.go", "C02.go"},
+		Harness:        []string{"interp_common.go", "big_common.go", "models_validate.go", "C02.go", "C02f.go"},
 		Instrument:     runidInstr,
 		ObserveHarness: []string{"vv_models", "vv_arith"},
 		ObserveBV:      true,
@@ -49,10 +49,49 @@ func init() {
 					add(op, k, 0, 0)
 				}
 			}
+			// strings: + and the comparisons, += ; plain and branch contexts
+			for _, op := range []int{0, 11, 12, 13, 14, 15, 16, 100} {
+				for _, form := range []int{0, 1, 2} {
+					if op == 100 && form == 1 {
+						continue
+					}
+					r = append(r, Oblig{Harness: "vh_C02_string", Solver: "cvc5", Globals: map[string]int{"vhOp": op, "vhForm": form, "vhBranch": 0}})
+					if op >= 11 && op <= 16 {
+						r = append(r, Oblig{Harness: "vh_C02_string", Solver: "cvc5", Globals: map[string]int{"vhOp": op, "vhForm": form, "vhBranch": 1}})
+					}
+				}
+			}
+			// floats: float64 all operators; float32 comparisons, neg, and (thorough) + - via the double-rounding query
+			for _, k := range []int{13, 14} {
+				ops := []int{0, 1, 2, 3, 11, 12, 13, 14, 15, 16, 17, 20, 21, 100, 101, 102, 103}
+				for _, op := range ops {
+					o := op % 100
+					if k == 13 && (o == 2 || o == 3) {
+						continue // float32 * and / : double rounding at full width is not decided by the installed solvers
+					}
+					if k == 13 && (o == 0 || o == 1 || o == 20 || o == 21) {
+						continue // float32 + - : the double-rounding query came back unknown at 120 s (cvc5, z3) in this harness: not registered
+					}
+					for _, form := range []int{0, 1, 2} {
+						if (op >= 100 && form == 1) || (o >= 17 && form != 0) {
+							continue
+						}
+						ob := Oblig{Harness: "vh_C02_float", Globals: map[string]int{"vhOp": op, "vhKind": k, "vhForm": form, "vhBranch": 0}, TimeoutMs: 120000}
+						if k == 13 {
+							ob.Solver = "cvc5"
+						}
+						r = append(r, ob)
+						if o >= 11 && o <= 16 {
+							ob.Globals = map[string]int{"vhOp": op, "vhKind": k, "vhForm": form, "vhBranch": 1}
+							r = append(r, ob)
+						}
+					}
+				}
+			}
 			return r
 		},
-		Bounds:      []string{"all 11 integer kinds", "operand values: every 64-bit pattern, truncated to the operand kind by the frame slot", "operand forms: variable/variable, typed constant left/right, untyped constant left/right", "result contexts: plain destination slot, compound assignment, comparison result, comparison as branch condition", "shift counts: every uint value, and every int value (negative included)"},
+		Bounds:      []string{"all 11 integer kinds", "float64: + - * / comparisons neg inc dec and compound forms, all values incl. NaN, infinities, signed zeros; float32: comparisons and neg", "strings: + += and the six comparisons on ASCII strings of <= 6 bytes", "operand values: every 64-bit pattern, truncated to the operand kind by the frame slot", "operand forms: variable/variable, typed constant left/right, untyped constant left/right", "result contexts: plain destination slot, compound assignment, comparison result, comparison as branch condition", "shift counts: every uint value, and every int value (negative included)"},
 		Assumptions: []string{"both operands have the node's type (type checker's contract); a shift count is uint or int", "frame slots are addressable reflect.Values of the operand kind (engine reflect model, validated on vectors)", "Go's operator semantics = the engine's encoding of the SSA BinOp/UnOp at the operand type (validated natively on vectors in both integer encodings)"},
-		Outside:     []string{"floats, complex, strings (next)", "interface-typed destinations", "map-entry operands of compound assignment", "conversions (delegated to reflect.Value.Convert)", "type rules of typecheck.go"},
+		Outside:     []string{"float32 + - * / ++ -- (double rounding through float64: undecided by the installed solvers at full width), complex operands", "interface-typed destinations", "map-entry operands of compound assignment", "conversions (delegated to reflect.Value.Convert)", "type rules of typecheck.go"},
 	}
 }
